@@ -1155,6 +1155,7 @@ func execFree(k *kase) (obs string) {
 	var me *mapEnv
 	if x, ok := e.(*mapEnv); ok {
 		me = x
+		me.cl.maxIn.Store(0) // the prefill went through DialTunnel too
 		me.cl.hold = make(chan struct{})
 		me.cl.arrived = make(chan struct{}, k.n)
 	}
